@@ -98,6 +98,10 @@ type Req struct {
 	// authority on the request line - which is the one that counts (RFC 9112 §3.2.2: with the
 	// absolute form the Host field is ignored).
 	HostOverride string `json:"host_override,omitempty"`
+	// Via2: the request goes through a second transport that is open on the same store at the
+	// same time (another component of the program, another process): nothing the first one has
+	// written is hidden from it, and the other way round.
+	Via2 bool `json:"via2,omitempty"`
 	// BodyLen > 0: the request carries a body of that many bytes (known length).
 	BodyLen int `json:"body_len,omitempty"`
 	// EmptyMethod: the request is sent with Method "" (which net/http defines as GET).
